@@ -157,7 +157,8 @@ def plan(pid: str, tier: str, seed: int) -> dict:
                                     ("chain2", "diamond", "failbranch", "firstof", "cycle2")]),
         )
     if pid == "C02":
-        progs = core + extra + [PR.by_name(n) for n in SYN] + PR.split_family() + PR.lazy_family() + PR.halt_family()
+        progs = core + extra + [PR.by_name(n) for n in SYN] + PR.split_family() + PR.lazy_family() + PR.halt_family() \
+            + PR.milestone_family()
         nseed = 24 if quick else 400
         return dict(
             progs=progs, props=["C02_SameOutcome", "C02_StartOnce", "C02_NoReexec", "C02_ExecExact", "C01_SameData"],
@@ -179,7 +180,7 @@ def plan(pid: str, tier: str, seed: int) -> dict:
         # jump programs: "the only exception is the explicit target of a jump" (the bypass flag must be consumed)
         progs = join_family() + [PR.by_name("selfloop"), PR.by_name("cycle2")] + \
                 [p for p in loop_family() if p["name"] in ("loopfanin", "cyc3", "fwd", "twotargets")] + \
-                PR.split_family() + random_dags(seed, 6 if quick else 100)
+                PR.split_family() + PR.milestone_family() + random_dags(seed, 6 if quick else 100)
         nseed = 12 if quick else 50
         return dict(
             progs=progs, props=["C03_StartsOnlyWhenAllowed", "C03_ExecOnlyStarted", "C03_NoRunBelowHalt"],
@@ -191,7 +192,8 @@ def plan(pid: str, tier: str, seed: int) -> dict:
                                  for p in progs if p["name"] == "quorumloop" for at in range(1, 60)],
             mc=[(p, {"AnyOrder": "TRUE", "MaxEarly": 1}, {}) for p in
                 ("diamond", "firstof", "quorumall", "multimerge", "failbranch", "firstofallfail", "mmfail")]
-               + [("orsplit", {"AnyOrder": "FALSE", "MaxEarly": 2}, {})]
+               + [("orsplit", {"AnyOrder": "FALSE", "MaxEarly": 2}, {}), ("milestone", {"AnyOrder": "TRUE", "MaxEarly": 1}, {}),
+                  ("milestonelate", {"AnyOrder": "TRUE"}, {})]
                + ([] if quick else [("orfail", {"AnyOrder": "TRUE", "MaxEarly": 1}, {})])
                # (MaxEarly 2 + MaxWithhold 1 exceeds 30 M states on the quorum programs: one of the two there, both on the small ones)
                + ([] if quick else [(p, {"AnyOrder": "TRUE", "MaxEarly": 2, "MaxWithhold": 1}, {"depth": 70}) for p in ("diamond", "firstof")]
@@ -201,7 +203,7 @@ def plan(pid: str, tier: str, seed: int) -> dict:
     if pid == "C05":
         progs = [p for p in core + extra if p["name"] != "stopped"] + [PR.by_name(n) for n in SYN] + \
                 [p for p in join_family() if p["name"] in ("firstofslow", "firstofallfail", "quorumimpossible", "mmfail", "deep")] + \
-                PR.region_family() + PR.split_family() + PR.halt_family()
+                PR.region_family() + PR.split_family() + PR.halt_family() + PR.milestone_family()
         nseed = 20 if quick else 300
         return dict(
             progs=progs, props=["C05_QuietMeansDone", "C05_SucceededIsHonest", "C05_FailureReported",
